@@ -132,6 +132,9 @@ func decodeKnobs(p *Profile, t *Tape) *Knobs {
 		k.MaxSeg = int64(pick(t, "k.maxseg", 200, 5000))
 		k.TierGrowth = float64(pick(t, "k.growth", 3, 10))
 	}
+	if p.PlanInv {
+		k.SegGates = true // the executed merges are observed at the segment plugin's Merge seam
+	}
 	if p.ForceSegVer != 0 {
 		k.SegVer = p.ForceSegVer
 	}
@@ -277,6 +280,9 @@ type Run struct {
 	diffQueries []qSpec
 	refAnswers  map[int]*answer
 	observations []Violation // non-fatal observations matched against known findings by the driver
+	expectPlan  *mergeplan.MergePlan
+	execMerges  []string
+	maxEligible int
 	opsIssued   int
 	docs       map[string]*DocSpec
 	recovered  map[int]*Content // image index -> recovered content (crash oracle)
@@ -1138,6 +1144,10 @@ func (r *Run) afterWindow() {
 	}
 	r.snapReads = r.snapReads[:0]
 	r.clearMerging()
+	r.planMonitor(evs)
+	if r.failed() {
+		return
+	}
 	r.dirInvariants(evs)
 	r.heldReaderProbes(evs)
 }
@@ -1404,6 +1414,12 @@ func (r *Run) quiescentChecks() {
 		r.probe("ambiguous-final-explanation")
 	}
 	r.finalModel = r.chain.Current()
+	if !r.earlyClosed {
+		r.quiescentPlanCheck()
+		if r.failed() {
+			return
+		}
+	}
 	if r.p.Diff {
 		r.diffLive()
 		if r.failed() {
